@@ -626,9 +626,9 @@ pub fn c10_process_world(ctx: &Ctx, scn: &crate::props::c10::Scn, sc: &Scale, ex
                 // one unit of the last printed digit + the rounding tolerance of DESIGN 3.5
                 let unit = 10f64.powi(-(*dx.min(dy) as i32)) * 1.1;
                 let tol = if is_ratio {
-                    unit + crate::cmp::ratio_tol(sc.e_an * f, den, va.iter().chain(vb.iter()).fold(0.0f64, |m, v| m.max(v.0.abs())), 0.0)
+                    unit + sc.k_long() * crate::cmp::ratio_tol(sc.e_an * f, den, va.iter().chain(vb.iter()).fold(0.0f64, |m, v| m.max(v.0.abs())), 0.0)
                 } else {
-                    unit + crate::cmp::C_ABS * crate::cmp::EPS * sc.e_an.max(sc.n_an) * f / sc.area.max(1e-9)
+                    unit + sc.c_abs() * crate::cmp::EPS * sc.e_an.max(sc.n_an) * f / sc.area.max(1e-9)
                 };
                 if !((x - y).abs() <= tol) {
                     return Some(Violation::new(
@@ -706,7 +706,7 @@ pub fn json_balance_mismatch(a: &serde_json::Value, b: &serde_json::Value, sc: &
         }
     }
     let mut out = None;
-    let tol = crate::cmp::C_ABS * crate::cmp::EPS * sc.e_an.max(sc.n_an) * max_factor + 0.0011;
+    let tol = sc.c_abs() * crate::cmp::EPS * sc.e_an.max(sc.n_an) * max_factor + 0.0011;
     if let (Some(x), Some(y)) = (a.get("balance"), b.get("balance")) {
         walk("balance", x, y, tol, &mut out);
     }
@@ -722,7 +722,7 @@ pub fn json_balance_mismatch(a: &serde_json::Value, b: &serde_json::Value, sc: &
     if out.is_none() && d > crate::cmp::RATIO_MIN_DEN * sc.e_an * max_factor {
         for k in ["rer", "rer_nrb", "rer_onst"] {
             if let (Some(x), Some(y)) = (a.get(k).and_then(|v| v.as_f64()), b.get(k).and_then(|v| v.as_f64())) {
-                let rtol = crate::cmp::ratio_tol(sc.e_an * max_factor, d, x.abs().max(y.abs()), 0.0011);
+                let rtol = sc.k_long() * crate::cmp::ratio_tol(sc.e_an * max_factor, d, x.abs().max(y.abs()), 0.0011);
                 if !((x - y).abs() <= rtol) {
                     out = Some(format!("{}: {} vs {} (tol {:e})", k, x, y, rtol));
                 }
